@@ -10,9 +10,9 @@ theorem peek_pinned :
     Generated.C10.peekMin = C10.peekLen ∧ Generated.C10.peekArg = C10.peekLen ∧
     Generated.C10.bufsizeAdd = C10.peekLen := by decide
 
-/-- `readServerName(data[5:])`: the record header that is skipped; 9 = 5 + 4. -/
+/-- `readServerName(buf[5:])`: the record header that is skipped; 9 = 5 + 4. -/
 theorem record_header_pinned :
-    Generated.C10.recHdrSkip = C10.recHdrLen ∧ Generated.C10.readServerNameArgBase = "data" ∧
+    Generated.C10.recHdrSkip = C10.recHdrLen ∧
     Generated.C10.hsHdrLen = C10.hsHdrLen ∧ C10.recHdrLen + C10.hsHdrLen = C10.peekLen := by decide
 
 /-- Record type 0x16 at offset 0, client_hello 0x01 at offset 5, record length limit 16384. -/
@@ -35,31 +35,45 @@ theorem unmarshal_offsets_pinned :
     Generated.C10.sidRebindOff = C10.sidOff ∧ Generated.C10.cipherRebindOff = 2 ∧
     Generated.C10.compressionRebindOff = 1 := by decide
 
-/-- `extensionServerName = 0`, host_name = 0, and `server_name` is the only extension the switch looks at. -/
+/-- The store of the server name is guarded by exactly two tests: extension type `== 0` (outermost) and
+name type `== 0` (innermost, followed by `break`); no other extension is looked at. -/
 theorem sni_constants_pinned :
     Generated.C10.extensionServerName = C10.extensionServerName ∧
-    Generated.C10.nameTypeHost = C10.nameTypeHost.toNat ∧ Generated.C10.unmarshalCaseClauses = 1 := by decide
+    Generated.C10.nameTypeHost = C10.nameTypeHost.toNat ∧
+    Generated.C10.nameStoreGuards = ["if _ == 0 [name]", "if _ == 0 [name] -> break"] := by decide
 
-/-- The checks of `clientHelloBufferSize`, in order (the model has one branch per entry). -/
-theorem bufsize_checks_pinned : Generated.C10.bufsizeConds =
-    ["if len(data) < 9", "if data[0] != 0x16", "if recordLength <= 0 || recordLength > 16384",
-     "if data[5] != 0x01", "if handshakeLength <= 0 || handshakeLength > recordLength-4"] := by decide
+/-- The checks of `clientHelloBufferSize` as normalised events, in order (the model has one branch per `if`). -/
+theorem bufsize_checks_pinned : Generated.C10.bufsizeEvents =
+    ["if len(_) < 9 -> return 0, …", "if _[0] != 22 -> return 0, …", "let (int(_[3])<<8)|int(_[4])",
+     "if _ == 0 || 16384 < _ -> return 0, …", "if _[5] != 1 -> return 0, …",
+     "let ((int(_[6])<<16)|(int(_[7])<<8))|int(_[8])", "if _ == 0 || _ < _+4 -> return 0, …"] := by decide
 
-/-- The checks and loops of `unmarshal`, in order (the model has one branch per entry). -/
-theorem unmarshal_checks_pinned : Generated.C10.unmarshalConds =
-    ["if len(data) < 42", "if sessionIdLen > 32 || len(data) < 39+sessionIdLen", "if len(data) < 2",
-     "if cipherSuiteLen%2 == 1 || len(data) < 2+cipherSuiteLen", "if len(data) < 1",
-     "if len(data) < 1+compressionMethodsLen", "if len(data) == 0", "if len(data) < 2",
-     "if extensionsLength != len(data)", "for len(data) != 0", "if len(data) < 4", "if len(data) < length",
-     "case extensionServerName", "if len(d) < 2", "if len(d) != namesLen", "for len(d) > 0", "if len(d) < 3",
-     "if len(d) < nameLen", "if nameType == 0"] := by decide
+/-- The checks, loops, byte reads and re-slicings of the parser `readServerName` calls (helpers inlined,
+variable names erased, conditions in normal form), in order: the model has one branch per `if`/`for`, one
+`idx` per byte read and one `sliceFrom` per `advance`. -/
+theorem unmarshal_checks_pinned : Generated.C10.unmarshalEvents =
+    ["if len(_) < 42 -> return false", "slice _[6:38]", "let int(_[38])",
+     "if 32 < _ || len(_) < _+39 -> return false", "advance _[_+39:]",
+     "if len(_) < 2 -> return false", "let (int(_[0])<<8)|int(_[1])",
+     "if _&1 != 0 || len(_) < _+2 -> return false", "advance _[_+2:]",
+     "if len(_) == 0 -> return false", "let int(_[0])", "if len(_) < _+1 -> return false", "advance _[_+1:]",
+     "if len(_) == 0 -> return true", "if len(_) < 2 -> return false", "let (int(_[0])<<8)|int(_[1])",
+     "advance _[2:]", "if _ != len(_) -> return false",
+     "for len(_) != 0", "if len(_) < 4 -> return false", "let (uint16(_[0])<<8)|uint16(_[1])",
+     "let (int(_[2])<<8)|int(_[3])", "advance _[4:]", "if len(_) < _ -> return false",
+     "if _ == 0 [name]", "if len(_) < 2 -> return false", "let (int(_[0])<<8)|int(_[1])", "advance _[2:]",
+     "if _ != len(_) -> return false", "for len(_) != 0", "if len(_) < 3 -> return false", "let _[0]",
+     "let (int(_[1])<<8)|int(_[2])", "advance _[3:]", "if len(_) < _ -> return false",
+     "if _ == 0 [name] -> break", "advance _[_:]", "advance _[_:]"] := by decide
 
-/-- `sni_reads_exact` at the code level: ServeTCP peeks 9 bytes, sizes the buffer with
-`clientHelloBufferSize` of exactly those, reads exactly that many bytes with `io.ReadFull`, parses `data[5:]`
-and only then looks the host up (this is `Model.C10.sniRoute`). -/
-theorem sni_reads_exact_calls : Generated.C10.serveTCPCalls =
-    ["bufio.NewReader(in)", "tlsReader.Peek(9)", "clientHelloBufferSize(tlsHeaders)", "make([]byte, bufferSize)",
-     "io.ReadFull(tlsReader, data)", "readServerName(data[5:])", "p.Lookup(host)"] ∧
+/-- `sni_reads_exact` at the code level, as data flow by role: ServeTCP wraps its connection in a
+`bufio.Reader`, peeks 9 bytes, sizes the buffer with `clientHelloBufferSize` of exactly those, reads exactly
+that many bytes with `io.ReadFull` from the same reader into that buffer, parses `buf[5:]` and only then looks
+the resulting host up (this is `Model.C10.sniRoute`); `readServerName` hands its argument unchanged to the
+parser. -/
+theorem sni_reads_exact_calls : Generated.C10.serveTCPFlow =
+    ["reader=bufio.NewReader(p0)", "hdr=reader.Peek(9)", "size=clientHelloBufferSize(hdr)", "buf=make([]byte,size)",
+     "io.ReadFull(reader,buf)", "host=readServerName(buf[5:])", "_.Lookup(host)"] ∧
     Generated.C10.readServerNamePassesArgument = true := by decide
 
 end Fabio.Props.C10Facts
